@@ -264,5 +264,17 @@ def r16_6(ctx):
     c13.r13_1b(ctx)
 
 
+def r16_7(ctx):
+    """R16.7 what `save` writes is what the reload takes back as the same state: (a) the `# default:` marker of a line is
+    decided after the value was evaluated (C03 R03.6) - a marker decided on a stale `set` flag makes the reload read a
+    default as a user value (or the reverse) and needs_save() is true right after saving; (b) `promptless` is decided over
+    all definitions of an option in the writer's marker predicate and in the loader alike (C02 R02.9b) - otherwise a typed
+    value is written with the marker, reloaded as a default and the edit is lost."""
+    from . import c02, c03
+    from .common import delegate
+    delegate(ctx, c03.r03_6, lambda c: c.startswith("Symbol.config_string/"))
+    delegate(ctx, c02.r02_9, lambda c: "prompt tests quantify" in c)
+
+
 def rules():
-    return [("R16.1", r16_1, 2), ("R16.2", r16_2, 11), ("R16.3", r16_3, 3), ("R16.4", r16_4, 2), ("R16.5", r16_5, 6), ("R16.6", r16_6, 4)]
+    return [("R16.7", r16_7, 3), ("R16.1", r16_1, 2), ("R16.2", r16_2, 11), ("R16.3", r16_3, 3), ("R16.4", r16_4, 2), ("R16.5", r16_5, 6), ("R16.6", r16_6, 4)]
